@@ -41,7 +41,7 @@ theorem pick_spec {t : Nat} {rs a b : List Run} {r : Run} (h : pick t rs = some 
 theorem run_induction (c : Cfg) (P : State → Prop) (h0 : P {})
     (hsettle : ∀ s, P s → P (settle c s))
     (hfire : ∀ s t, P s → P (fire c s t))
-    (hexpire : ∀ s d, P s → P (expire c s d))
+    (hexpire : ∀ s d, P s → s.deadline = some d → s.runs ≠ [] → P (expire c s d))
     (hnow : ∀ s t, P s → P { s with now := max s.now t })
     (haccept : ∀ s x, P s → s.stopped = false → P (accept s x))
     (hstop : ∀ s, P s → P (doStop c s)) :
@@ -54,9 +54,16 @@ theorem run_induction (c : Cfg) (P : State → Prop) (h0 : P {})
       intro s h
       simp only [advance]
       split
-      · split
-        · split
-          · exact ih _ (hexpire _ _ h)
+      · next m hm =>
+        split
+        · next d hd =>
+          split
+          · refine ih _ (hexpire _ _ h ?_ ?_)
+            · unfold deadlineFirst at hd
+              split at hd
+              · next d' hd' => split at hd <;> simp_all
+              · cases hd
+            · intro hr; rw [hr] at hm; simp [minTill] at hm
           · exact h
         · split
           · exact ih _ (hfire _ _ h)
@@ -378,7 +385,7 @@ theorem expire_countInv (c : Cfg) (s : State) (d : Nat) (h : CountInv c s) : Cou
 
 theorem run_countInv (c : Cfg) (ops : List Op) : CountInv c (run c ops) :=
   run_induction c (CountInv c) (by simp [CountInv]) (settle_countInv c) (fire_countInv c)
-    (expire_countInv c) (fun _ _ h => h) (fun s x h _ => accept_countInv c s x h) (doStop_countInv c) ops
+    (fun s d h _ _ => expire_countInv c s d h) (fun _ _ h => h) (fun s x h _ => accept_countInv c s x h) (doStop_countInv c) ops
 
 
 /-! ### termination: every internal step lowers `measure`; `finish` reaches the idle state -/
@@ -640,7 +647,7 @@ theorem expire_sdInv (c : Cfg) (s : State) (d : Nat) (h : SdInv c s) : SdInv c (
 
 theorem run_sdInv (c : Cfg) (ops : List Op) : SdInv c (run c ops) :=
   run_induction c (SdInv c) (by simp [SdInv]) (settle_sdInv c) (fire_sdInv c)
-    (expire_sdInv c) (fun _ _ h => h) (fun s x h _ => by simpa [SdInv, accept] using h) (doStop_sdInv c) ops
+    (fun s d h _ _ => expire_sdInv c s d h) (fun _ _ h => h) (fun s x h _ => by simpa [SdInv, accept] using h) (doStop_sdInv c) ops
 
 theorem run_snoc (c : Cfg) (ops : List Op) (op : Op) : run c (ops ++ [op]) = step c (run c ops) op := by
   simp [run, List.foldl_append]
@@ -843,7 +850,7 @@ theorem run_balanced (c : Cfg) (ops : List Op) : Balanced (run c ops) := by
   have := run_induction c (fun s => Balanced s ∧ SdInv c s) ⟨by simp [Balanced, putJobs, resJobs, pendJobs], by simp [SdInv]⟩
     (fun s h => ⟨settle_balanced c s h.1, settle_sdInv c s h.2⟩)
     (fun s t h => ⟨fire_balanced c s t h.1, fire_sdInv c s t h.2⟩)
-    (fun s d h => ⟨expire_balanced c s d h.1, expire_sdInv c s d h.2⟩)
+    (fun s d h _ _ => ⟨expire_balanced c s d h.1, expire_sdInv c s d h.2⟩)
     (fun _ _ h => h)
     (fun s x h _ => ⟨accept_balanced s x h.1, by simpa [SdInv, accept] using h.2⟩)
     (fun s h => by
@@ -922,7 +929,7 @@ theorem run_uniq (c : Cfg) (ops : List Op) : UniqInv (run c ops) := by
   · simp [UniqInv, putJobs]
   · intro s h; have := settle_put c s; simpa [UniqInv, this.1, this.2] using h
   · intro s t h; have := fire_put c s t; simpa [UniqInv, this.1, this.2] using h
-  · intro s d h; simpa [UniqInv, putJobs_expire] using h
+  · intro s d h _ _; simpa [UniqInv, putJobs_expire] using h
   · intro s t h; exact h
   · intro s x h _; exact uniq_add s _ x h (by simp [accept, evPut]) rfl
   · intro s h
@@ -985,7 +992,7 @@ theorem run_fifo (c : Cfg) (ops : List Op) : Fifo c (run c ops) := by
   · intro _; rfl
   · exact settle_fifo c
   · exact fire_fifo c
-  · intro s d h hm
+  · intro s d h _ _ hm
     have := h hm
     rw [putJobs_expire, this, expire_log_eq]
     simp only [startJobs, List.filterMap_append, expire_queue]
@@ -1271,7 +1278,7 @@ theorem run_cancInv (c : Cfg) (ops : List Op) : CancInv (run c ops) := by
   · exact ⟨⟨by simp, by simp, by simp, by simp, by simp⟩, by simp, by intro t e j h; simp at h⟩
   · exact settle_cancInv c
   · exact fire_cancInv c
-  · intro s d ⟨hQ, hsd, hc⟩
+  · intro s d ⟨hQ, hsd, hc⟩ _ _
     refine ⟨?_, by simpa using hsd, ?_⟩
     · refine qInv_mono (s := s) rfl ?_ (Nat.le_refl _) (by simp; omega) (expire_log_sub c s d) hQ
       intro r' hr'
@@ -1533,7 +1540,7 @@ theorem run_gInv (c : Cfg) (ops : List Op) : GInv c (run c ops) := by
   · exact ⟨by intro t1 e hm; simp at hm, fun _ => trivial⟩
   · exact settle_gInv c
   · exact fire_gInv c
-  · exact expire_gInv c
+  · exact fun s d h _ _ => expire_gInv c s d h
   · intro s t h
     exact ⟨g2_step (s := s) (fun t1 e hm _ => Or.inl hm) (Nat.le_max_left _ _) (fun r hr _ => Or.inl hr) h.1, h.2⟩
   · intro s x h _; exact gInv_put c s _ ⟨s.nacc, x⟩ rfl rfl rfl h
@@ -1640,7 +1647,7 @@ theorem run_noCancel (c : Cfg) (ops : List Op) : NoCancel c (run c ops) := by
   · intro _ t e hm; simp at hm
   · exact settle_noCancel c
   · exact fire_noCancel c
-  · exact expire_noCancel c
+  · exact fun s d h _ _ => expire_noCancel c s d h
   · intro s t h; exact h
   · intro s x h _; exact noCancel_ext (s := s) ⟨[_], rfl, by simp [evCancel]⟩ h
   · intro s h
@@ -2079,7 +2086,7 @@ theorem run_sdLast (c : Cfg) (ops : List Op) : SdLast c (run c ops) := by
       rw [fire_stopped] at hst
       rw [(fire_put c s t).2]
       exact fire_sdL c _ s t h.1 (h.2 hst d hd)⟩)
-    (fun s d h => ⟨expire_sdInv c s d h.1, by
+    (fun s d h _ _ => ⟨expire_sdInv c s d h.1, by
       intro hst dd hd
       have hst' : s.stopped = true := hst
       rcases h.2 hst' dd hd with hw | hs
@@ -2239,7 +2246,7 @@ theorem run_kindOK (c : Cfg) (ops : List Op) : KindOK (run c ops).log := by
   · intro t e hm; simp at hm
   · exact settle_kindOK c
   · exact fire_kindOK c
-  · exact expire_kindOK c
+  · exact fun s d h _ _ => expire_kindOK c s d h
   · intro s t h; exact h
   · intro s x h _; exact put_kindOK _ _ h
   · intro s h
@@ -2269,5 +2276,191 @@ theorem two_results {log : List (Nat × Ev)} {x y : Nat × Ev} {j : Job} (hx : x
         simp only [resJobs, List.mem_filterMap]; exact ⟨x, hx', hxj⟩)
       simp only [] at hyj; rw [hyj]; simp; omega
     · have := ih hx' hy'; omega
+
+/-! ### the stop_timeout clock -/
+
+/-- what the controller and the block's own timers leave alone -/
+def Frame (s s' : State) : Prop :=
+  s'.deadline = s.deadline ∧ s'.stopAt = s.stopAt ∧ s'.stopped = s.stopped ∧ s.now ≤ s'.now ∧
+  ∃ l, s'.log = l ++ s.log ∧ (∀ x ∈ l, x.2 ≠ Ev.timeout) ∧
+    (s.runs ≠ [] → s'.runs ≠ [] ∨ ∃ t' n, s.now ≤ t' ∧ (t', Ev.out n) ∈ l)
+
+theorem frame_refl (s : State) : Frame s s :=
+  ⟨rfl, rfl, rfl, Nat.le_refl _, [], rfl, by simp, fun h => Or.inl h⟩
+
+theorem frame_trans {s1 s2 s3 : State} (h12 : Frame s1 s2) (h23 : Frame s2 s3) : Frame s1 s3 := by
+  obtain ⟨a1, a2, a3, a4, l1, a5, a6, a7⟩ := h12
+  obtain ⟨b1, b2, b3, b4, l2, b5, b6, b7⟩ := h23
+  refine ⟨by rw [b1, a1], by rw [b2, a2], by rw [b3, a3], by omega, l2 ++ l1, by rw [b5, a5]; simp, ?_, ?_⟩
+  · intro x hx
+    rcases List.mem_append.mp hx with hx | hx
+    · exact b6 x hx
+    · exact a6 x hx
+  · intro hr
+    rcases a7 hr with h | ⟨t', n, ht, hm⟩
+    · rcases b7 h with h' | ⟨t', n, ht, hm⟩
+      · exact Or.inl h'
+      · exact Or.inr ⟨t', n, by omega, List.mem_append_left _ hm⟩
+    · exact Or.inr ⟨t', n, ht, List.mem_append_right _ hm⟩
+
+/-- a step that only appends non-timeout events and keeps the runs non-empty -/
+theorem frame_of_append {s s' : State} (l : List (Nat × Ev)) (hd : s'.deadline = s.deadline)
+    (hs : s'.stopAt = s.stopAt) (hst : s'.stopped = s.stopped) (hnow : s.now ≤ s'.now)
+    (hl : s'.log = l ++ s.log) (hnt : ∀ x ∈ l, x.2 ≠ Ev.timeout)
+    (hr : s.runs ≠ [] → s'.runs ≠ [] ∨ ∃ t' n, s.now ≤ t' ∧ (t', Ev.out n) ∈ l) : Frame s s' :=
+  ⟨hd, hs, hst, hnow, l, hl, hnt, hr⟩
+
+theorem startRun_frame (s : State) (j : Job) : Frame s (startRun s j) :=
+  frame_of_append [_, _] rfl rfl rfl (Nat.le_refl _) rfl (by simp) (fun _ => Or.inl (by simp))
+
+theorem startAll_frame (s : State) (q : List Job) : Frame s (startAll s q) := by
+  induction q generalizing s with
+  | nil => exact frame_refl s
+  | cons j q ih => exact frame_trans (startRun_frame s j) (ih _)
+
+theorem discards_frame (s : State) (j : Job) (q : List Job) : Frame s (discards s j q) := by
+  induction q generalizing s j with
+  | nil => exact frame_refl s
+  | cons k q ih =>
+    refine frame_trans ?_ (ih (emit s (.canc j)) k)
+    exact frame_of_append [_] rfl rfl rfl (Nat.le_refl _) rfl (by simp) (fun h => Or.inl h)
+
+theorem settle_frame (c : Cfg) (s : State) : Frame s (settle c s) := by
+  apply settle_cases c s (fun s' => Frame s s')
+  · exact frame_refl s
+  · intro _ j q _ _
+    exact frame_trans (s2 := { s with queue := q })
+      (frame_of_append [] rfl rfl rfl (Nat.le_refl _) rfl (by simp) (fun h => Or.inl h)) (startRun_frame _ j)
+  · intro _ j q _ _
+    exact frame_trans (s2 := { s with queue := [] })
+      (frame_of_append [] rfl rfl rfl (Nat.le_refl _) rfl (by simp) (fun h => Or.inl h))
+      (frame_trans (discards_frame _ j q) (startRun_frame _ _))
+  · intro _ j q r rest _ _ _
+    exact frame_of_append [_, _] rfl rfl rfl (Nat.le_refl _) rfl (by simp) (fun _ => Or.inl (by simp [cancelCur]))
+  · intro _
+    refine frame_trans (s2 := { s with queue := [] })
+      (frame_of_append [] rfl rfl rfl (Nat.le_refl _) rfl (by simp) (fun h => Or.inl h)) ?_
+    refine frame_trans (startAll_frame { s with queue := [] } s.queue) ?_
+    unfold startStopData
+    split
+    · split
+      · exact frame_trans (s2 := { startAll { s with queue := [] } s.queue with sdPending := none })
+          (frame_of_append [] rfl rfl rfl (Nat.le_refl _) rfl (by simp) (fun h => Or.inl h)) (startRun_frame _ _)
+      · exact frame_refl _
+    · exact frame_refl _
+
+theorem result_ne_timeout (r : Run) : (if r.job.data.fail then Ev.err r.job else Ev.succ r.job) ≠ Ev.timeout := by
+  cases r.job.data.fail <;> simp
+
+theorem fire_frame (c : Cfg) (s : State) (t : Nat) : Frame s (fire c s t) := by
+  apply fire_cases c s t (fun s' => Frame s s')
+  · intro _; exact frame_refl s
+  · intro a r b _ _ _ _
+    refine frame_of_append [_, _] rfl rfl rfl (Nat.le_max_left _ _) rfl ?_ (fun _ => Or.inl (by simp))
+    intro x hx; simp at hx
+    rcases hx with rfl | rfl
+    · exact result_ne_timeout r
+    · simp
+  · intro a r b _ _ _ _
+    refine frame_trans (s2 := countDown { afterCoro s t r with runs := a ++ b }) ?_ (settle_frame c _)
+    refine frame_of_append [_, _, _] rfl rfl rfl (Nat.le_max_left _ _) rfl ?_
+      (fun _ => Or.inr ⟨max s.now t, s.output - 1, Nat.le_max_left _ _, by simp [afterCoro]⟩)
+    intro x hx; simp at hx
+    rcases hx with rfl | rfl | rfl
+    · simp
+    · exact result_ne_timeout r
+    · simp
+  · intro a r b _ _ _
+    refine frame_trans (s2 := countDown { s with now := max s.now t, runs := a ++ b }) ?_ (settle_frame c _)
+    exact frame_of_append [_] rfl rfl rfl (Nat.le_max_left _ _) rfl (by simp)
+      (fun _ => Or.inr ⟨max s.now t, s.output - 1, Nat.le_max_left _ _, by simp⟩)
+
+/-- the deadline is stop time + stop_timeout; a `timeout` marker is logged no earlier than that, in one
+    instant only, disarms the deadline, and only while some run was still active (a later output
+    decrement follows, or the run is still there) -/
+def TInv (c : Cfg) (s : State) : Prop :=
+  (∀ D, s.deadline = some D → ∃ ts, s.stopAt = some ts ∧ D = ts + c.stopTimeout) ∧
+  (∀ t, (t, Ev.timeout) ∈ s.log →
+      (∃ ts, s.stopAt = some ts ∧ ts + c.stopTimeout ≤ t) ∧ s.deadline = none ∧
+      ((∃ t' n, t ≤ t' ∧ (t', Ev.out n) ∈ s.log) ∨ (s.runs ≠ [] ∧ t ≤ s.now))) ∧
+  (∀ t1 t2, (t1, Ev.timeout) ∈ s.log → (t2, Ev.timeout) ∈ s.log → t1 = t2) ∧
+  (s.stopAt.isSome → s.stopped = true)
+
+theorem tInv_frame {c : Cfg} {s s' : State} (hf : Frame s s') (h : TInv c s) : TInv c s' := by
+  obtain ⟨f1, f2, f3, f4, l, f5, f6, f7⟩ := hf
+  obtain ⟨h1, h2, h3, h4⟩ := h
+  have hold : ∀ t, (t, Ev.timeout) ∈ s'.log → (t, Ev.timeout) ∈ s.log := by
+    intro t hm; rw [f5] at hm
+    rcases List.mem_append.mp hm with hm | hm
+    · exact absurd rfl (f6 _ hm)
+    · exact hm
+  refine ⟨by rw [f1, f2]; exact h1, ?_, fun t1 t2 a b => h3 t1 t2 (hold _ a) (hold _ b), by rw [f2, f3]; exact h4⟩
+  intro t hm
+  obtain ⟨a, b, cc⟩ := h2 t (hold t hm)
+  refine ⟨by rw [f2]; exact a, by rw [f1]; exact b, ?_⟩
+  rcases cc with ⟨t', n, ht, ho⟩ | ⟨hr, ht⟩
+  · exact Or.inl ⟨t', n, ht, by rw [f5]; exact List.mem_append_right _ ho⟩
+  · rcases f7 hr with hr' | ⟨t', n, ht', ho⟩
+    · exact Or.inr ⟨hr', by omega⟩
+    · exact Or.inl ⟨t', n, by omega, by rw [f5]; exact List.mem_append_left _ ho⟩
+
+theorem expire_tInv (c : Cfg) (s : State) (d : Nat) (hd : s.deadline = some d) (hr : s.runs ≠ [])
+    (h : TInv c s) : TInv c (expire c s d) := by
+  obtain ⟨h1, h2, h3, h4⟩ := h
+  have hnone : ∀ t, (t, Ev.timeout) ∉ s.log := by
+    intro t hm; have := (h2 t hm).2.1; rw [hd] at this; cases this
+  have hnew : ∀ t, (t, Ev.timeout) ∈ (expire c s d).log → t = max s.now d := by
+    intro t hm
+    rw [expire_log_eq] at hm
+    rcases List.mem_append.mp hm with hm | hm
+    · rcases expireNew_mem hm with h0 | ⟨r, _, _, h0 | h0⟩
+      · cases h0; rfl
+      · cases h0
+      · cases h0
+    · exact absurd hm (hnone t)
+  obtain ⟨ts, hts, hD⟩ := h1 d hd
+  refine ⟨by simp, ?_, fun t1 t2 a b => by rw [hnew t1 a, hnew t2 b], h4⟩
+  intro t hm
+  rw [hnew t hm]
+  refine ⟨⟨ts, hts, by omega⟩, rfl, Or.inr ⟨?_, Nat.le_refl _⟩⟩
+  simp only [expire_runs, ne_eq, List.map_eq_nil_iff]; exact hr
+
+theorem run_tInv (c : Cfg) (ops : List Op) : TInv c (run c ops) := by
+  apply run_induction c (TInv c)
+  · exact ⟨by simp, by simp, by simp, by simp⟩
+  · exact fun s h => tInv_frame (settle_frame c s) h
+  · exact fun s t h => tInv_frame (fire_frame c s t) h
+  · exact fun s d h hd hr => expire_tInv c s d hd hr h
+  · intro s t h
+    exact tInv_frame (s := s) (frame_of_append [] rfl rfl rfl (Nat.le_max_left _ _) rfl (by simp)
+      (fun hr => Or.inl hr)) h
+  · intro s x h _
+    exact tInv_frame (s := s) (frame_of_append [_] rfl rfl rfl (Nat.le_refl _) rfl (by simp)
+      (fun hr => Or.inl hr)) h
+  · intro s h
+    unfold doStop
+    split
+    · exact h
+    · next hst =>
+      obtain ⟨h1, h2, h3, h4⟩ := h
+      have hsa : s.stopAt = none := by
+        cases hs : s.stopAt with
+        | none => rfl
+        | some ts => exact absurd (h4 (by simp [hs])) hst
+      have hnone : ∀ t, (t, Ev.timeout) ∉ s.log := by
+        intro t hm; obtain ⟨⟨ts, hts, _⟩, _⟩ := h2 t hm; rw [hsa] at hts; cases hts
+      -- whatever `stop()` queues, it logs at most a put marker
+      have key : ∀ s1 : State, (∀ t, (t, Ev.timeout) ∉ s1.log) → s1.now = s.now →
+          TInv c { s1 with stopped := true, deadline := some (s1.now + c.stopTimeout), stopAt := some s1.now } := by
+        intro s1 hn _
+        exact ⟨fun D hD => ⟨s1.now, rfl, by simp at hD; omega⟩, fun t hm => absurd hm (hn t),
+          fun t1 _ a _ => absurd a (hn t1), fun _ => rfl⟩
+      split
+      · exact key s hnone rfl
+      · split
+        · refine key _ ?_ rfl
+          intro t hm; simp at hm; exact hnone t hm
+        · refine key _ ?_ rfl
+          intro t hm; simp [accept] at hm; exact hnone t hm
 
 end Edzed.OutputAsync
